@@ -110,8 +110,27 @@ func c11Record(tier string, seed int64, emit func(interface{})) {
 	// expansion: words whose number of variants stays small
 	// one expansion of more than a million variants: the count and the number of distinct variants are taken by the
 	// harness (reported, not spec-decided: TLC does not hold a million strings), 400 of them go to TLC
+	// ... and degenerate primers: MANY ambiguous positions of two or three bases each, the expansion still moderate
+	// (a back-translated peptide: 13..16 two-fold codes; a mix of two- and three-fold codes)
+	bigs := []string{[]string{"NNNNNNNNNN", "NNNNNBNNNNN", "ANNNNNHNNNNNC"}[rng.Intn(3)]}
 	{
-		s := []string{"NNNNNNNNNN", "NNNNNBNNNNN", "ANNNNNHNNNNNC"}[rng.Intn(3)]
+		var b1, b2 []byte
+		for k := 13 + rng.Intn(4); k > 0; k-- {
+			b1 = append(b1, "ACGT"[rng.Intn(4)], "ACGT"[rng.Intn(4)], "RYSWKM"[rng.Intn(6)])
+		}
+		prod := 1
+		for prod < 60000 {
+			c := "RYSWKMBDHV"[rng.Intn(10)]
+			if c == 'B' || c == 'D' || c == 'H' || c == 'V' {
+				prod *= 3
+			} else {
+				prod *= 2
+			}
+			b2 = append(b2, c, "ACGT"[rng.Intn(4)])
+		}
+		bigs = append(bigs, string(b1), string(b2))
+	}
+	for _, s := range bigs {
 		v, err := variants.AllVariantsIUPAC(s)
 		distinct := map[string]struct{}{}
 		for _, x := range v {
